@@ -850,7 +850,7 @@ impl Stdfs {
     /// ```
     pub fn is_exec<T: AsRef<Path>>(path: T) -> bool {
         match Stdfs::abs(path) {
-            Ok(x) => match fs::metadata(x) {
+            Ok(x) => match fs::symlink_metadata(x) {
                 Ok(y) => y.permissions().mode() & 0o111 != 0,
                 Err(_) => false,
             },
@@ -920,7 +920,7 @@ impl Stdfs {
     /// ```
     pub fn is_readonly<T: AsRef<Path>>(path: T) -> bool {
         match Stdfs::abs(path) {
-            Ok(x) => match fs::metadata(x) {
+            Ok(x) => match fs::symlink_metadata(x) {
                 Ok(y) => y.permissions().readonly(),
                 Err(_) => false,
             },
